@@ -29,11 +29,18 @@ type ChanProj struct {
 
 // ChanSession is one secured pair, one direction under test.
 type ChanSession struct {
-	W     io.Writer
-	R     io.Reader
-	Wire  *Wire            // the bytes in flight from W to R
-	Proj  func() *ChanProj // nil: L1 only
-	After func(frameLen int)
+	W    io.Writer
+	R    io.Reader
+	Wire *Wire            // the bytes in flight from W to R
+	Proj func() *ChanProj // nil: L1 only
+	// the reverse direction of the same pair (R's side writes, W's side reads)
+	RevW    io.Writer
+	RevR    io.Reader
+	RevWire *Wire
+	// After runs after every step with the real lengths (frame incl. tag) of the frames just handled; the
+	// harness of a layer with pooled buffers checks the pool there.  It returns a description of an
+	// inconsistency it found (L2), "" otherwise.
+	After func(frameLens ...int) string
 	Close func()
 	Note  string
 }
@@ -57,6 +64,11 @@ type chanState struct {
 	NDel                  int
 	RdErr                 bool
 	Under, NFault, ErrPos int
+	StopPos               int
+	RG                    string
+	WG, Loose             bool
+	NGlitch               int
+	WDead                 bool
 }
 type chanFrame struct {
 	N, Len int
@@ -69,14 +81,18 @@ func decodeChanState(raw json.RawMessage) (chanState, error) {
 	if err := json.Unmarshal(raw, &a); err != nil {
 		return s, err
 	}
-	if len(a) != 14 {
+	if len(a) != 20 {
 		return s, fmt.Errorf("state has %d fields", len(a))
 	}
-	ints := []*int{&s.NSent, &s.WNonce, &s.RNonce, nil, nil, nil, &s.QLen, &s.QSeek, nil, &s.NDel, nil, &s.Under, &s.NFault, &s.ErrPos}
-	bools := []*bool{nil, nil, nil, nil, &s.Closed, &s.QLive, nil, nil, &s.Broken, nil, &s.RdErr, nil, nil, nil}
+	ints := []*int{&s.NSent, &s.WNonce, &s.RNonce, nil, nil, nil, &s.QLen, &s.QSeek, nil, &s.NDel, nil, &s.Under, &s.NFault, &s.ErrPos,
+		&s.StopPos, nil, nil, nil, &s.NGlitch, nil}
+	bools := []*bool{nil, nil, nil, nil, &s.Closed, &s.QLive, nil, nil, &s.Broken, nil, &s.RdErr, nil, nil, nil,
+		nil, nil, &s.WG, &s.Loose, nil, &s.WDead}
 	for i := range a {
 		var err error
 		switch {
+		case i == 15:
+			err = json.Unmarshal(a[i], &s.RG)
 		case ints[i] != nil:
 			err = json.Unmarshal(a[i], ints[i])
 		case bools[i] != nil:
@@ -123,8 +139,19 @@ type chanRun struct {
 	rem    int         // real queued remainder the harness expects
 	buf    []byte
 	faulty bool
-	// real length (plaintext + tag) of the frame the reader took most recently
-	lastFrame int
+	// real length (plaintext + tag) of the frame the reader took most recently / the writer sent most recently
+	lastFrame, lastSent int
+	shortWritten        bool
+	endLoose            bool
+	loose               bool       // a glitch of the connection reached the reader: only L1 from here on
+	rev                 *Ledger    // reverse direction of the same pair
+	peer                **chanPeer // the worker's second live pair
+}
+
+// chanPeer is a second live session pair of the same process (it shares the buffer pool).
+type chanPeer struct {
+	sess *ChanSession
+	led  *Ledger
 }
 
 func (r *chanRun) mismatch(step int, class, what string, exp, got any) {
@@ -222,7 +249,7 @@ func (r *chanRun) run() {
 	stop := false
 	diverged := false
 	for si, st := range w.Steps {
-		if stop || diverged {
+		if stop || diverged || r.endLoose {
 			break
 		}
 		op := st.Op
@@ -238,12 +265,28 @@ func (r *chanRun) run() {
 			K := sc.WriteLen(k, r.mPT, r.pick, w.Walk, si)
 			before := wire.Framed()
 			beforeBytes := wire.Written
+			short := op.B("short")
+			if short {
+				wire.InjectShortWrite() // the connection takes a part of the next write and times out
+			}
 			var n int
 			var werr error
 			Guard(fmt.Sprintf("Write(%d bytes)", K), func() { n, werr = sess.W.Write(r.led.Next(K)) })
-			r.log = append(r.log, map[string]any{"op": "write", "k": k, "real": K, "n": n, "err": fmt.Sprint(werr)})
+			r.log = append(r.log, map[string]any{"op": "write", "k": k, "real": K, "short": short, "n": n, "err": fmt.Sprint(werr)})
+			r.lastSent = minInt(K, sc.MaxPT) + sc.Tag
 			if r.l1(si, r.led.OnWrite(K, n, werr)) {
 				stop = true
+				break
+			}
+			if short {
+				// what Write reported is what was accepted; a part of a frame (or of a record) is in flight behind
+				// it, so the reader can get at most to the end of the accepted bytes and then fails or waits
+				r.res.Case("write/short")
+				if werr == nil {
+					r.mismatch(si, "L2:"+cfg.Layer+"-short-write", fmt.Sprintf("the short write of the connection was not reported: Write(%d) = (%d, nil)", K, n), "error", "nil")
+				}
+				r.led.MarkFault(r.led.Written)
+				r.shortWritten = true
 				break
 			}
 			if n != K || werr != nil {
@@ -268,6 +311,14 @@ func (r *chanRun) run() {
 			wire.SetCap(c)
 			r.log = append(r.log, map[string]any{"op": "short", "k": op.I("k"), "real": c})
 			r.res.Case(fmt.Sprintf("short/%d", op.I("k")))
+		case "glitch":
+			// armed right in front of the call the model lets it hit
+			r.log = append(r.log, map[string]any{"op": "glitch", "kind": op.S("kind")})
+			r.res.Case("glitch/" + op.S("kind"))
+		case "other":
+			if !r.other(si, op) {
+				stop = true
+			}
 		case "fault":
 			applied, abandon := r.applyFault(si, op, prev)
 			if !applied {
@@ -286,10 +337,12 @@ func (r *chanRun) run() {
 			r.res.AddMismatch(vfh.Mismatch{Class: "MACHINERY", What: "unknown op " + op.Name(), Walk: w.Walk, Step: si})
 			return
 		}
-		if sess.After != nil && op.Name() == "read" {
-			sess.After(r.lastFrame)
+		if sess.After != nil && !stop && (op.Name() == "read" || op.Name() == "write" || op.Name() == "other") {
+			if what := sess.After(r.lastFrame, r.lastSent); what != "" {
+				r.mismatch(si, "L2:"+cfg.Layer+"-pool", what, nil, nil)
+			}
 		}
-		if cfg.Exact && sess.Proj != nil && !stop && !diverged {
+		if cfg.Exact && sess.Proj != nil && !stop && !diverged && !r.loose && !r.shortWritten {
 			r.project(si, op, next, cross)
 		}
 		prev = next
@@ -380,7 +433,7 @@ func (r *chanRun) read(si int, op vfh.Op, prev, next chanState) bool {
 	} else {
 		b = sc.BufLen(rel, q, keep, r.pick, r.walk.Walk, si)
 	}
-	if cfg.Exact && !r.led.Fault && r.sess.Proj != nil {
+	if cfg.Exact && !r.led.Fault && r.sess.Proj != nil && !r.loose {
 		// the model enables a Read only when it cannot block; if the real reader has nothing at all the
 		// two have drifted apart (L2) and the call is not made (it would block, not fail)
 		p := r.sess.Proj()
@@ -396,10 +449,29 @@ func (r *chanRun) read(si int, op vfh.Op, prev, next chanState) bool {
 	for i := 0; i < len(buf) && i < 64; i++ {
 		buf[i] = 0xEE
 	}
+	glitch := op.S("glitch")
+	if glitch == "dataerr" || glitch == "temperr" {
+		// From here on the reader may swallow the error (io.ReadFull had enough), report it later (bufio keeps
+		// it) or lose the bytes it had taken of a frame and fail for good: only the statement is judged -
+		// what is delivered is a prefix of what was accepted, errors are allowed, garbling never.
+		wire.InjectRead(glitch)
+		r.loose = true
+		r.led.MarkFault(1 << 61)
+	}
 	var n int
 	var err error
 	Guard(fmt.Sprintf("Read(%d bytes)", b), func() { n, err = r.sess.R.Read(buf) })
-	r.log = append(r.log, map[string]any{"op": "read", "path": path, "rel": rel, "real": b, "n": n, "err": fmt.Sprint(err)})
+	r.log = append(r.log, map[string]any{"op": "read", "path": path, "rel": rel, "real": b, "glitch": glitch, "n": n, "err": fmt.Sprint(err)})
+	if r.loose {
+		r.res.Case("read-loose/" + glitch)
+		if r.l1(si, r.led.OnRead(buf, n, err, false)) {
+			return false
+		}
+		if err != nil && !IsGlitch(err) {
+			r.endLoose = true // the reader failed for good: the rest of the walk is given up, the drain judges
+		}
+		return true
+	}
 	r.res.Case("read/" + path + "/" + rel + "/" + fmt.Sprint(op.B("err")) + "/" + fmt.Sprint(prev.Under))
 	if err != nil && isDry(err) && !r.led.Fault {
 		// would block: not an error of the channel (completeness is judged at the end)
@@ -412,7 +484,7 @@ func (r *chanRun) read(si int, op vfh.Op, prev, next chanState) bool {
 	if r.l1(si, r.led.OnRead(buf, n, err, false)) {
 		return false
 	}
-	if !cfg.Exact {
+	if !cfg.Exact || r.shortWritten {
 		return true
 	}
 	// L2: byte count, error flag, path bookkeeping
@@ -435,6 +507,111 @@ func (r *chanRun) read(si int, op vfh.Op, prev, next chanState) bool {
 	if (err != nil) != op.B("err") {
 		r.mismatch(si, "L2:"+cfg.Layer+"-read-error", fmt.Sprintf("Read(%d) on path %s/%s: error %v", b, path, rel, err), op.B("err"), err != nil)
 	}
+	return true
+}
+
+// other performs a Write somewhere else in the process between two calls of the direction under test: on
+// the reverse direction of the same pair or on the worker's second live pair.  What it writes is read back
+// at once under its own ledger (those bytes are covered by the statement too).
+func (r *chanRun) other(si int, op vfh.Op) bool {
+	sc := r.cfg.Scale
+	who, k := op.S("who"), op.I("k")
+	var w io.Writer
+	var rd io.Reader
+	var led *Ledger
+	var wire *Wire
+	switch who {
+	case "rev":
+		if r.sess.RevW == nil {
+			return true
+		}
+		if r.rev == nil {
+			r.rev = NewLedger(r.cfg.Layer+"-reverse", Content(3), true)
+			r.sess.RevWire.SetBlocking(false)
+		}
+		w, rd, led, wire = r.sess.RevW, r.sess.RevR, r.rev, r.sess.RevWire
+	default:
+		if r.peer == nil {
+			return true
+		}
+		if *r.peer == nil {
+			ps, err := r.cfg.New(-1)
+			if err != nil {
+				r.res.AddMismatch(vfh.Mismatch{Class: "MACHINERY", What: "cannot build the second session pair: " + err.Error(), Walk: r.walk.Walk})
+				return false
+			}
+			ps.Wire.SetBlocking(false)
+			*r.peer = &chanPeer{sess: ps, led: NewLedger(r.cfg.Layer+"-peer", Content(2), true)}
+		}
+		p := *r.peer
+		if p.led.Written+2*sc.MaxPT > len(p.led.Data) {
+			p.led.Data = p.led.Data[p.led.Written:] // (the peer lives across walks: wrap the payload window)
+			if len(p.led.Data) < 4*sc.MaxPT {
+				p.led.Data = Content(2)
+			}
+			p.led.Written, p.led.Delivered = 0, 0
+		}
+		w, rd, led, wire = p.sess.W, p.sess.R, p.led, p.sess.Wire
+	}
+	K := 0
+	if k <= 1 {
+		K = r.pick.Pick(sc.Small, r.walk.Walk, si, 1)
+	} else {
+		K = r.pick.Pick(append([]int{sc.MaxPT}, sc.Large...), r.walk.Walk, si, 1)
+	}
+	if led.Written+K > len(led.Data) {
+		led.Data = Content(3)
+		led.Written, led.Delivered = 0, 0
+	}
+	var n int
+	var err error
+	Guard(fmt.Sprintf("%s Write(%d bytes)", who, K), func() { n, err = w.Write(led.Next(K)) })
+	r.lastSent = minInt(K, sc.MaxPT) + sc.Tag
+	r.log = append(r.log, map[string]any{"op": "other", "who": who, "real": K, "n": n, "err": fmt.Sprint(err)})
+	r.res.Case(fmt.Sprintf("other/%s/%d", who, k))
+	if r.l1(si, led.OnWrite(K, n, err)) {
+		return false
+	}
+	// read it back: a big buffer (decrypted in place) or a small one first (pooled, then queued)
+	big := 2*(sc.MaxPT+sc.Tag) + 64
+	if cap(r.buf) < big {
+		r.buf = make([]byte, big)
+	}
+	first := true
+	for it := 0; it < 64 && led.Delivered < led.Written; it++ {
+		b := big
+		if first && r.pick.Index(2, r.walk.Walk, si, 2) == 1 && K > 1 {
+			b = K / 2
+		}
+		first = false
+		buf := r.buf[:b:b]
+		var m int
+		var rerr error
+		Guard(fmt.Sprintf("%s Read(%d bytes)", who, b), func() { m, rerr = rd.Read(buf) })
+		if rerr != nil && isDry(rerr) {
+			break
+		}
+		if p := led.OnRead(buf, m, rerr, false); p != nil {
+			r.mismatch(si, p.Class, p.What, p.Expected, p.Got)
+			if who == "peer" {
+				(*r.peer).sess.Close()
+				*r.peer = nil
+			}
+			return false
+		}
+		if rerr != nil {
+			break
+		}
+	}
+	if led.Delivered != led.Written {
+		r.mismatch(si, led.Layer+"-incomplete", fmt.Sprintf("%d bytes written on the %s pair, %d delivered after everything in flight was read", led.Written, who, led.Delivered), led.Written, led.Delivered)
+		if who == "peer" {
+			(*r.peer).sess.Close()
+			*r.peer = nil
+		}
+		return false
+	}
+	_ = wire
 	return true
 }
 
@@ -635,11 +812,15 @@ func RunChannel(res *vfh.Result, cfg ChanCfg, glob string, rounds, par int) erro
 		go func() {
 			defer wg.Done()
 			var scratch []byte
+			var peer *chanPeer // the worker's second live session pair: it lives across walks
 			for j := range ch {
-				r := &chanRun{cfg: cfg, res: res, mPT: j.mPT, file: j.file, walk: j.walk, buf: scratch,
+				r := &chanRun{cfg: cfg, res: res, mPT: j.mPT, file: j.file, walk: j.walk, buf: scratch, peer: &peer,
 					pick: Picker{Seed: uint64(vfh.Seed()), Round: j.round}}
 				r.run()
 				scratch = r.buf
+			}
+			if peer != nil {
+				peer.sess.Close()
 			}
 		}()
 	}
